@@ -15,6 +15,7 @@ import (
 	"time"
 
 	"github.com/gobwas/ws"
+	"github.com/gobwas/ws/wsutil"
 	"wsverif/vh"
 )
 
@@ -33,6 +34,9 @@ type dscenario struct {
 	CancelAt  string `json:"cancelAt"`  // "" | before_dial | in_dial | io_begin:i | io_end:i
 	HoldSetDl bool   `json:"holdSetDl"` // keep SetDeadline(past) blocked until the last I/O operation has finished
 	Free      bool   `json:"free"`      // unforced race: cancel concurrently with the last operation
+	// Debug: the dial goes through wsutil.DebugDialer (request and response callbacks set), which puts its
+	// own reader between the dialer and the connection; everything C20 says holds for it as well
+	Debug bool `json:"debug"`
 }
 
 type dev struct {
@@ -216,6 +220,10 @@ func (c gconn) Read(p []byte) (n int, err error) {
 		k := len(e.resp) - e.respPos
 		if e.respPos == 0 && k > 40 {
 			k = 40
+			if e.sc.Debug {
+				// (through the debug wrapper: the first part ends with a whole header line)
+				k = bytes.Index(e.resp, []byte("websocket\r\n")) + len("websocket\r\n")
+			}
 		}
 		if k > len(p) {
 			k = len(p)
@@ -349,7 +357,14 @@ func runDial(sc dscenario) []interface{} {
 	}
 	done := make(chan result, 1)
 	go func() {
-		conn, _, _, err := d.Dial(ctx, "ws://example.test/path")
+		var conn net.Conn
+		var err error
+		if sc.Debug {
+			dd := wsutil.DebugDialer{Dialer: d, OnRequest: func([]byte) {}, OnResponse: func([]byte) {}}
+			conn, _, _, err = dd.Dial(ctx, "ws://example.test/path")
+		} else {
+			conn, _, _, err = d.Dial(ctx, "ws://example.test/path")
+		}
 		e.mu.Lock()
 		e.log(dev{Ev: "return", Err: derrClass(err), ConnNil: conn == nil})
 		e.mu.Unlock()
@@ -470,6 +485,11 @@ func c20(c *ctx) {
 	for i, sc := range scs {
 		sc.Key = fmt.Sprintf("dial/%d/%s/%s/%s/%s%d/%s/%v", i, sc.CtxKind, sc.Timeout, sc.DialMode, sc.PeerMode, sc.PeerAt, sc.CancelAt, sc.HoldSetDl)
 		emit(sc)
+		if sc.DialMode == "ok" && (c.thorough || sc.PeerMode != "ok" || i%2 == 0) {
+			sc.Debug = true
+			sc.Key = "d" + sc.Key
+			emit(sc)
+		}
 	}
 	races := 300
 	if c.thorough {
